@@ -1208,12 +1208,12 @@ def word_cases(alphabet, maxlen, T=8, tail=True, suffixes=('',)):
     return out
 
 
-def grid_cases(max_subs=4, timeouts=TIMEOUTS, kinds='S'):
+def grid_cases(max_subs=4, timeouts=TIMEOUTS, kinds='S', modes=None):
     """C08 grid: k submissions separated by gaps from {0, T-1, T+1, 2T+1}; whenever a
     gap lets the timer fire, the running call is answered by one of the response
     modes (duration 0 / <T / >T, ok or fail-then-ok)."""
     import itertools
-    modes = ['', 'K', 'hK', 'pK', 'F', 'FpK', 'hFmK']
+    modes = modes or ['', 'K', 'hK', 'pK', 'F', 'FpK', 'hFmK']
     out = []
     for T in timeouts:
         for k in range(1, max_subs + 1):
